@@ -1,22 +1,37 @@
 /-
-C15 — proved counter-examples: clauses of the statement that the unchanged code violates.
+C15 — the defect the clauses (T) transparency and (S) status preservation used to have, kept as
+non-vacuity theorems about the OLD code.
 
-FULL STATEMENTS (what the property asks for, for EVERY configuration the code accepts):
-  (T)  ∀ cfg name ic ops, No101 ops → clientBody (some name) (runWrapped cfg name ic ops) = some (written cfg ops)
-  (S)  the status the client receives is the status the handler set before its first body byte
-
-Both fail when `minimum_length` is negative (accepted by `Validate`, not touched by `Provision`):
-`ReadFrom` then skips the sniffing phase (`rw.config.MinLength > 0` is false, encode.go:372) and hands the
-reader straight to the wrapped writer (encode.go:389) without ever going through `Write` — the deferred
-status is never written (net/http answers 200), `wroteHeader` stays false, and `Close` (encode.go:397-408)
-may still run `init()` and append an encoder trailer to a response whose plain body and header are already
-out. The provable part is stated in Props.lean under the decidable exclusion `cfg.minLen > 0`.
-The witnesses below are exported as protocol lines (`Driver.witnessLines`) and replayed on the real code on
-every run.
+Before commit 954786b ("fix: encode: write the deferred status before handing a reader to the underlying
+writer") `ReadFrom` with a negative `minimum_length` (accepted by `Validate`, left alone by `Provision`)
+skipped the sniffing phase and handed the reader straight to the wrapped writer without ever going through
+`Write`: the deferred status was never written (net/http answered 200), `wroteHeader` stayed false, and
+`Close` could still run `init()` and append an encoder trailer to a response whose plain body and header were
+already out. `copyRestOld` / `rwReadFromOld` are that code; the theorems below show that the statements of
+Props.lean are not vacuous — they FAIL for the old `ReadFrom` on concrete scripts — and the neighbouring
+examples show the same scripts are fine for the code as it is now, with the same negative `minimum_length`.
+The two scripts are replayed on the real code on every run from corpus/C15/regression-minlen-negative.txt
+(they must pass now). Nothing is exported as a witness line any more.
 -/
 import CaddyModel.C15.Spec
 
 namespace CaddyModel.C15
+
+section
+variable {α : Type}
+
+/-- OLD `ReadFrom` tail (before 954786b): no header commit before `rf.ReadFrom(r)` -/
+def copyRestOld (st : St α) (chunks : List α) : St α :=
+  if st.encOpen then chunks.foldl encWrite st else chunks.foldl dsWrite st
+
+/-- OLD `ReadFrom` (before 954786b) -/
+def rwReadFromOld (cfg : Cfg α) (st : St α) (chunks : List α) : St α :=
+  if !st.wroteHeader && decide (cfg.minLen > 0) then
+    (fun res : St α × List α × Nat => if res.2.2 = 0 then copyRestOld res.1 res.2.1 else res.1)
+      (sniffLoop cfg (nonEmpty cfg chunks) 512 st)
+  else copyRestOld st (nonEmpty cfg chunks)
+
+end
 
 /-- `minimum_length: -1`, any matcher; payloads are their lengths -/
 def wCfg : Cfg Nat := ⟨-1, fun _ _ => true, id, fun _ => []⟩
@@ -27,36 +42,30 @@ def wMixed : List (Op Nat) := [.hset kCL [53], .readFrom [5]]
 /-- `WriteHeader(404)`, then the body arrives through `ReadFrom` -/
 def wStatus : List (Op Nat) := [.writeHeader 404, .readFrom [5]]
 
-theorem wMixed_no101 : No101 wMixed := by
-  intro op h
-  simp [wMixed] at h
-  rcases h with rfl | rfl <;> simp
+/-- the same two scripts run on the OLD `ReadFrom`, then the deferred `Close` -/
+def wMixedOld : St Nat :=
+  rwClose wCfg (rwReadFromOld wCfg (step wCfg (St.init vGzip false) (.hset kCL [53])) [5])
+def wStatusOld : St Nat :=
+  rwClose wCfg (rwReadFromOld wCfg (step wCfg (St.init vGzip false) (.writeHeader 404)) [5])
 
-/-- what happens: 5 plain bytes under a header without Content-Encoding, then the encoder's trailer -/
-theorem wMixed_log : (runWrapped wCfg vGzip false wMixed).log = [.ec, .w 5] ∧
-    sentCE (runWrapped wCfg vGzip false wMixed) = [] := by decide
+/-- old code: 5 plain bytes under a header without Content-Encoding, then the encoder's trailer -/
+theorem old_code_mixes_streams : wMixedOld.log = [.ec, .w 5] ∧ sentCE wMixedOld = [] := by decide
 
-/-- ¬(T): the negation of the full transparency statement -/
-theorem transparent_full_fails :
-    ∃ (cfg : Cfg Nat) (name : Bytes) (ic : Bool) (ops : List (Op Nat)), No101 ops ∧
-      clientBody (some name) (runWrapped cfg name ic ops) ≠ some (written cfg ops) :=
-  ⟨wCfg, vGzip, false, wMixed, wMixed_no101, by decide⟩
+/-- (T) fails for the old `ReadFrom`: the client cannot decode what it receives -/
+theorem transparent_old_code_fails : clientBody (some vGzip) wMixedOld ≠ some (written wCfg wMixed) := by decide
 
-/-- ¬(S): the handler answered 404, the client is told 200 -/
-theorem status_full_fails :
-    ∃ (cfg : Cfg Nat) (name : Bytes) (ic : Bool) (s : Nat) (body : List (Op Nat)),
-      (∀ op ∈ body, ∃ cs, op = Op.readFrom cs) ∧
-      ((runWrapped cfg name ic (Op.writeHeader s :: body)).sent.map (·.1)) ≠ some s :=
-  ⟨wCfg, vGzip, false, 404, [.readFrom [5]], by simp, by decide⟩
+/-- (S) fails for the old `ReadFrom`: the handler answered 404, the client is told 200 -/
+theorem status_old_code_fails : wStatusOld.sent.map (·.1) = some 200 := by decide
 
-/-- the exclusion is sharp: the same two scripts are fine under the default `minimum_length` -/
-example : clientBody (some vGzip) (runWrapped { wCfg with minLen := 512 } vGzip false wMixed) = some [5] := by decide
-example : ((runWrapped { wCfg with minLen := 512 } vGzip false wStatus).sent.map (·.1)) = some 404 := by decide
+/-- the code as it is now, same negative `minimum_length`, same scripts: transparent, status kept -/
+example : clientBody (some vGzip) (runWrapped wCfg vGzip false wMixed) = some [5] ∧
+    (runWrapped wCfg vGzip false wMixed).log = [.w 5] := by decide
+example : (runWrapped wCfg vGzip false wStatus).sent.map (·.1) = some 404 := by decide
 
-/-- Why `No101` is a hypothesis of the body clauses (NOT a defect of the tree, not exported): the writer
-    forwards 101 like any 1xx, net/http treats it as the final header; the recording writer of the model does
-    not drop the body net/http would refuse (`ErrBodyNotAllowed`), so in the model an "encoded body" follows a
-    header that was fixed before `init` ran. -/
+/-- Why `No101` is a hypothesis of the body clauses (NOT a defect of the tree): the writer forwards 101 like
+    any 1xx, net/http treats it as the final header; the recording writer of the model does not drop the body
+    net/http would refuse (`ErrBodyNotAllowed`), so in the model an "encoded body" follows a header that was
+    fixed before `init` ran. -/
 theorem no101_hypothesis_is_needed :
     clientBody (some vGzip) (runWrapped { wCfg with minLen := 1 } vGzip false [.writeHeader 101, .write 5]) = none := by
   decide
